@@ -49,14 +49,14 @@ def run(case, workdir, name, nsub, threads, jitter, state=True):
     if jitter is not None:
         env["CMI_VERIF_JITTER"] = jitter
     r = cmirun.run(d, ["--params", "params.yml", "--task-based-rhd", "--threads", str(threads),
-                       "--number-of-steps", str(case["nsteps"])], env, timeout=600, cpu_limit=60)
+                       "--number-of-steps", str(case["nsteps"])], env, timeout=900, cpu_limit=180)
     return d, r
 
 
 def failed(r, name, run_):
     if run_["cpu_exceeded"]:
         r.schedule_dependent = True
-        return r.fail("run %s did not finish: 60 s of CPU time used up (normal < 1 s): %s" % (name, run_["out"][-200:].replace("\n", " | ")))
+        return r.fail("run %s did not finish: 180 s of CPU time used up (normal < 1 s): %s" % (name, run_["out"][-200:].replace("\n", " | ")))
     if run_["timeout"]:
         r.inconclusive = "wall-clock limit hit without exhausting the CPU budget"
         return r
